@@ -1193,7 +1193,15 @@ class Interp(object):
             return getattr(obj, name)
         if name in ("append", "add", "extend", "update", "pop", "clear", "setdefault", "get", "items", "keys",
                     "values", "insert", "remove", "discard", "copy", "index", "count", "reverse", "sort",
-                    "difference", "union", "intersection", "issubset", "isdisjoint", "popitem"):
+                    "difference", "union", "intersection", "issubset", "issuperset", "isdisjoint", "popitem",
+                    "symmetric_difference", "difference_update", "intersection_update", "symmetric_difference_update"):
+            if isinstance(obj, (set, frozenset)):
+                # set algebra: members that are instances of repository classes compare by identity, as FNode does
+                args = [self.iterate(a) if isinstance(a, (GenObj, ListIter)) else a for a in args]
+                for a in args:
+                    for x in (a if isinstance(a, (list, tuple, set, frozenset)) else ()):
+                        if isinstance(x, (SymInt, SymBool)):
+                            self.unsupported("set.%s over symbolic values" % name)
             if name in ("get", "setdefault", "pop") and isinstance(obj, dict) and args and isinstance(args[0], Abs) \
                     and not _hashable_abs(args[0]):
                 self.unsupported("dict.%s with abstract key" % name)
